@@ -290,14 +290,17 @@ class Program:
         missing = EXPECTED_MODULES - set(prog.modules)
         if missing:
             raise AnalysisError("modules vanished: %s" % sorted(missing))
-        prog._specialise_exception_params()
+        for _round in range(3):
+            # (a helper that hands the class on to another helper is specialised first, the inner one in the next round)
+            if not prog._specialise_exception_params():
+                break
         for mi in prog.modules.values():
             prog._index_module(mi)
         prog._index_exception_factories()
         prog._index_forwarders()
         return prog
 
-    def _specialise_exception_params(self) -> None:
+    def _specialise_exception_params(self) -> bool:
         """A module-level function that raises the class it receives as a parameter (`def check(..., error): ... raise
         error(...)`, a validation shared by two constructors that report with different classes) is replaced, before
         anything is indexed, by one copy per class its call sites pass (`check__ValueError`), the parameter substituted
@@ -312,6 +315,7 @@ class Program:
                 return True
             return n.endswith("Error") or n.endswith("Exception")
 
+        changed = False
         for mi in list(self.modules.values()):
             for fn in [st for st in mi.tree.body if isinstance(st, ast.FunctionDef)]:
                 a = fn.args
@@ -429,6 +433,7 @@ class Program:
                             mi.tree.body.insert(k, src)
                             at += 1
                 mi.tree.body.remove(fn)
+                changed = True
                 for mj, c, local, imp_stmt, where, cname in plan:
                     new_local = made[cname] if mj is mi else "%s__%s" % (local, cname)
                     c.func.id = new_local
@@ -438,6 +443,7 @@ class Program:
                         del c.args[where[1]]
                     if imp_stmt is not None and not any((al.asname or al.name) == new_local for al in imp_stmt.names):
                         imp_stmt.names.append(ast.alias(name=made[cname], asname=new_local if new_local != made[cname] else None))
+        return changed
 
     def _index_forwarders(self) -> None:
         """F is a forwarder of G when F's whole body is `return G(<F's own parameters, in order>)` (a method body moved
